@@ -503,6 +503,35 @@ def rule_mode_arith(ctx: Ctx, prog: Program) -> None:
                                   f"{f.qualname} tests `{ast.unparse(n)}` where `{ast.unparse(a)}` is a difference whose left operand is read from an unsigned "
                                   f"engine array ({', '.join(sorted(uparams))}): compiled code computes it in int64 (can be negative), interpreted code keeps the "
                                   "unsigned type (wraps to a large positive value) -- the two execution modes take different branches")
+    # `~b` on a scalar truth value: Numba's boolean type complements logically (True -> False), the Python bool the interpreted engine sees is an
+    # int (~True == -2, ~False == -1); used in arithmetic (a counter `+= ~flag`) or as a condition the two modes disagree
+    n_inv = 0
+    for f in prog.all_functions():
+        if not f.njit:
+            continue
+        bools: Set[str] = set()
+        for n in ast.walk(f.node):
+            if isinstance(n, ast.Assign) and len(n.targets) == 1 and isinstance(n.targets[0], ast.Name):
+                v = n.value
+                is_b = isinstance(v, (ast.Compare, ast.BoolOp)) or (isinstance(v, ast.Constant) and isinstance(v.value, bool)) \
+                    or (isinstance(v, ast.UnaryOp) and isinstance(v.op, ast.Not))
+                if isinstance(v, ast.Call) and isinstance(v.func, ast.Name):
+                    r = prog.resolve(f.module, v.func.id)
+                    if r and r[0] == "func" and r[1].node.returns is not None and ast.unparse(r[1].node.returns) == "bool":
+                        is_b = True
+                if is_b:
+                    bools.add(n.targets[0].id)
+        for n in ast.walk(f.node):
+            if isinstance(n, ast.UnaryOp) and isinstance(n.op, ast.Invert):
+                n_inv += 1
+                o = n.operand
+                if (isinstance(o, ast.Name) and o.id in bools) or isinstance(o, (ast.Compare, ast.BoolOp)) or (isinstance(o, ast.Constant) and isinstance(o.value, bool)):
+                    ctx.violation("R-MODE-ARITH", f.path, f.qualname, f"invert-on-truth-value:{ast.unparse(o)[:30]}", f"{f.path}:{n.lineno}",
+                                  f"{f.qualname} applies `~` to the truth value `{ast.unparse(o)}`: compiled code complements a boolean logically, interpreted code "
+                                  "complements the Python int behind it (~True == -2, ~False == -1): a counter fed with it, or a branch on it, differs between "
+                                  "the two execution modes")
+    if not n_inv:
+        ctx.ok("R-MODE-ARITH", "no bitwise complement of a scalar truth value in jitted code", nontrivial=False)
     # sums: `u + k` with u read from an 8-bit engine array (the level pointer) is computed in int64 when compiled and in uint8 when interpreted,
     # where it wraps past 255 -- reachable, since 256 levels are allowed.  A comparison must put the arithmetic on the other (Python int) side.
     u8 = {r for r, t in uns.items() if t == "uint8"}
